@@ -49,18 +49,18 @@ theorem stripMarker_cons_dash (k : Str) : Api.stripMarker ('-' :: k) = k := rfl
 
 /-- what the guard `keyOk` says in the generator's vocabulary -/
 theorem keyOk_iff (k : Str) :
-    keyOk k = true ↔ Api.stripMarker k ≠ [] ∧ Api.isMarked (Api.stripMarker k) = false := by
+    keyOk k = true ↔ Api.isMarked (Api.stripMarker k) = false := by
   unfold keyOk
   rw [clearMarker_eq]
   cases h : Api.stripMarker k with
-  | nil => simp
+  | nil => simp [Api.isMarked]
   | cons c cs =>
     by_cases hc : c = '-'
     · subst hc; simp [Api.isMarked]
     · have : Api.isMarked (c :: cs) = false := by unfold Api.isMarked; split <;> simp_all
       simp [this, hc]
 
-theorem keysOk_iff (keys : List Str) : keysOk keys = true ↔ (∀ k ∈ keys, keyOk k = true) ∧ keys.Nodup := by
+theorem keysOk_iff (keys : List Str) : keysOk keys = true ↔ ∀ k ∈ keys, keyOk k = true := by
   unfold keysOk; simp
 
 theorem mem_delKeys (keys : List Str) (k : Str) :
@@ -82,11 +82,11 @@ theorem delKeys_contains (keys : List Str) (k : Str) :
 
 /-- under `keyOk` a key marked for removal is itself not marked -/
 theorem delKeys_unmarked (keys : List Str) (hk : ∀ k ∈ keys, keyOk k = true) (k : Str)
-    (h : k ∈ Result.delKeys keys) : Api.isMarked k = false ∧ k ≠ [] := by
+    (h : k ∈ Result.delKeys keys) : Api.isMarked k = false := by
   obtain ⟨x, hx, _, h2⟩ := (mem_delKeys keys k).1 h
   have := (keyOk_iff x).1 (hk x hx)
   rw [h2] at this
-  exact ⟨this.2, this.1⟩
+  exact this
 
 theorem pick_const_any {ε β : Type} (q : ε → Bool) (L : List ε) (c : β) (d : Option β) :
     pick (lastMatch q L) (fun _ => c) d = if L.any q then some c else d := by
